@@ -200,8 +200,21 @@ CLAIMS = {
              "Delivered-To loop check, all of which live in the 250-line main(); bouncexf and mailforward are not yet under "
              "contract.",
         design_ref="DESIGN.md section 5 C13"),
+    "C17": dict(
+        category="other",
+        technique="bounded CBMC runs (complete unwinding for inputs up to a stated length) of the real quote.c against a reference unquoter; contract-level stralloc model",
+        text="PARTIAL claim - the quoting half, as bounded stand-ins (labelled bounded, not counted as proved): for every local "
+             "part of <= 6 bytes over all bytes but NUL and LF, quote() produces a form that a reference RFC 821 unquoter "
+             "(the rule qmail-smtpd's addrparse implements) decodes to the identical bytes, with every parser-special byte "
+             "inside balanced quotes and unquoted forms being dot-atoms; quote2() quotes exactly the part before the LAST @ "
+             "and appends the domain unchanged (addresses <= 9 bytes).",
+        note="NOT addressed: the second half of the property - RFC 822 header address lists becoming the envelope in "
+             "qmail-inject (token822_parse/token822_addrlist, headerbody, hfield): no contract within reach expresses 'the "
+             "listed mailboxes' without re-implementing RFC 822, and the callback-driven parser is outside what the tool "
+             "handled in the time available. A change there is NOT detected by this check.",
+        design_ref="DESIGN.md section 5 C17"),
 }
 
 NOT_APPLICABLE = {p: PENDING for p in
                   [
-                   "C17", "C20"]}
+                   "C20"]}
